@@ -239,3 +239,36 @@ Theorem C03_demo_history :
     mget hmod16 t (VInt 116) = Ok VNil.
 Proof. exact demo_history_ok. Qed.
 Print Assumptions C03_demo_history.
+
+(* ---------- Round 8: mixedTable.grow ---------- *)
+From GV Require Import Table.Migrate Table.MigrateGrow.
+
+(* the migration loop of mixedTable.grow, for ANY slot list and array: the array keeps its size; slot i becomes the same slot
+   with its value nil'd iff it is live with an integer key in 1..size (movedb), otherwise it is untouched; cell m of the new
+   array holds the value of a moved slot of key m+1, or its old content when no moved slot has that key; the array invariant
+   (len = last non-nil) is preserved *)
+Theorem C03_migrate_spec : forall sl arr sl' arr', migrate sl arr = (sl', arr') ->
+  let n := length (avalues arr) in
+  length (avalues arr') = n /\
+  (forall i s, nth_error sl i = Some s -> nth_error sl' i = Some (if movedb n s then set_val s VNil else s)) /\
+  length sl' = length sl /\
+  (forall m, (exists s, In s sl /\ movedb n s = true /\ skey s = VInt (Z.of_nat (S m)) /\ nth m (avalues arr') VNil = sval s)
+     \/ ((forall s, In s sl -> movedb n s = true -> skey s <> VInt (Z.of_nat (S m))) /\
+         nth m (avalues arr') VNil = nth m (avalues arr) VNil)) /\
+  (AInv (Some arr) -> AInv (Some arr')).
+Proof. exact migrate_spec. Qed.
+Print Assumptions C03_migrate_spec.
+
+(* mixedTable.grow as a whole (hash growth with / without integer keys, and array growth + migration + cleanup):
+   the whole-table invariant InvG is preserved, the abstract map is unchanged on every good key, a hash part exists
+   afterwards, the array part does not shrink, and a key absent from the hash part stays absent from it.
+   (InvG is satisfiable: InvG_empty; a migration is exercised by C03_demo_history.) *)
+Theorem C03_grow_preserves_inv_and_map : forall hash,
+  (forall a b, wf a = true -> wf b = true -> equals a b = true -> hash a = hash b) ->
+  forall t t', InvG hash t -> mgrow hash t = Ok t' ->
+  InvG hash t' /\ (forall k', gkey k' -> abs t' k' = abs t k') /\
+  (exists h', hpart t' = Some h') /\ asize (apart t) <= asize (apart t') /\
+  (forall k2, is_nil k2 = false -> (forall h, hpart t = Some h -> kabsent (kvs (slots h)) k2) ->
+     forall h', hpart t' = Some h' -> kabsent (kvs (slots h')) k2).
+Proof. exact mgrow_G. Qed.
+Print Assumptions C03_grow_preserves_inv_and_map.
